@@ -333,26 +333,27 @@ static size_t hold(const std::string &kind, size_t n) {
     for (size_t i = 0; i < n; i++) {
         bool copy = (i % 3) == 2;          // every third handle is a copy of the previous one, the others are fetched anew
         if (kind == "file") { p.file.push_back(S.f); continue; }
-        Rich r(S.f, RICH);
+        nix::Block b = S.f.getBlock(RICH);
+        if (!b) throw std::logic_error("bad script: no rich block");
 #define HOLD(k, vec, fresh) if (kind == k) { if (copy && !p.vec.empty()) p.vec.push_back(p.vec.back()); else p.vec.push_back(fresh); continue; }
-        HOLD("block", block, r.b)
-        HOLD("array", array, (i % 2 ? r.sig : r.spare))
-        HOLD("dset", dset, r.dset)
-        HOLD("dsam", dsam, r.dsam)
-        HOLD("drng", drng, r.drng)
-        HOLD("dali", dali, r.dali)
-        HOLD("dfrm", dfrm, r.dfrm)
-        HOLD("dim", dim, r.sig.getDimension(1 + i % 2))
-        HOLD("tag", tag, r.tg)
-        HOLD("mtag", mtag, r.mt)
-        HOLD("feature", feature, (i % 2 ? r.mfe : r.tfe))
-        HOLD("group", group, r.gr)
-        HOLD("source", source, (i % 2 ? r.so2 : r.so))
-        HOLD("section", section, r.md)
-        HOLD("subsection", subsection, r.sub)
-        HOLD("property", property, (i % 2 ? r.ps : r.pi))
-        HOLD("view", view, (i % 2 ? r.mt.taggedData(0, 0) : r.tg.taggedData(0)))
-        HOLD("frame", frame, r.df)
+        HOLD("block", block, b)
+        HOLD("array", array, b.getDataArray(i % 2 ? "sig" : "spare"))
+        HOLD("dset", dset, b.getDataArray("sig").getDimension(2).asSetDimension())
+        HOLD("dsam", dsam, b.getDataArray("sig").getDimension(1).asSampledDimension())
+        HOLD("drng", drng, b.getDataArray("rng").getDimension(1).asRangeDimension())
+        HOLD("dali", dali, b.getDataArray("ali").getDimension(1).asRangeDimension())
+        HOLD("dfrm", dfrm, b.getDataArray("fdim").getDimension(1).asDataFrameDimension())
+        HOLD("dim", dim, b.getDataArray("sig").getDimension(1 + i % 2))
+        HOLD("tag", tag, b.getTag("tg"))
+        HOLD("mtag", mtag, b.getMultiTag("mt"))
+        HOLD("feature", feature, (i % 2 ? b.getMultiTag("mt").getFeature(0) : b.getTag("tg").getFeature(0)))
+        HOLD("group", group, b.getGroup("gr"))
+        HOLD("source", source, (i % 2 ? b.getSource("so").getSource("so2") : b.getSource("so")))
+        HOLD("section", section, S.f.getSection(RICH + "_md"))
+        HOLD("subsection", subsection, S.f.getSection(RICH + "_md").getSection("rsub"))
+        HOLD("property", property, S.f.getSection(RICH + "_md").getProperty(i % 2 ? "ps" : "pi"))
+        HOLD("view", view, (i % 2 ? b.getMultiTag("mt").taggedData(0, 0) : b.getTag("tg").taggedData(0)))
+        HOLD("frame", frame, b.getDataFrame("df"))
 #undef HOLD
         throw std::logic_error("bad handle kind " + kind);
     }
